@@ -30,8 +30,6 @@ ASSUMPTIONS = [
     'domain: cmp_value and spec are str (for an int cmp_value the numeric operators still work through float(int), '
     'the no-operator case compares str with int and is False, <in> raises TypeError, <all-in>/<range-in> raise ValueError '
     'from literal_eval: not modelled)',
-    'parseString expands tabs to spaces before parsing; not modelled because tabs and spaces are both skipped and cannot '
-    'occur inside a token (generated specs contain tabs)',
     'values outside the literal_eval fragment are compared up to the point where literal_eval is called (model prints UNMODELLED)',
     'int literal digit limit (4300) not modelled; the fragment stops at 4000 characters',
 ]
@@ -426,10 +424,11 @@ def oracle(c, io):
     elif k == 'eq':
         want_t = [d['y']]
         want = d['x'] == d['y']
-    if want_t is not None and toks != canon_tokens(want_t):
-        return 'spec %r parses to %s, the documented grammar gives %r' % (c['spec'], toks, want_t)
+    # only the observable of the property (the result of match) is demanded; the token list is
+    # reported with it as a diagnosis (it is tied to the model by the correspondence, not demanded here)
     if want is not None and res != str(want):
-        return 'match(%r, %r) = %s, documented meaning (%s) is %s' % (c['value'], c['spec'], res, k, want)
+        note = '' if want_t is None or toks == canon_tokens(want_t) else ' [tokens %s, documented grammar %r]' % (toks, want_t)
+        return 'match(%r, %r) = %s, documented meaning (%s) is %s%s' % (c['value'], c['spec'], res, k, want, note)
     return None
 
 def classify(c, io):
